@@ -127,28 +127,63 @@ def all_pending(supvisors, m):
     return supvisors.starter.ghost_node_requests[m]
 
 
+def pending_on(command, i):
+    """the command counts for instance i: 'starts already requested there' and not yet running - it has that (non-empty)
+    target and its process is still stopped (a process that is not stopped is counted by the instance load)"""
+    return (command.identifier is not None and command.identifier != '' and command.identifier == i
+            and command.process._state in STOPPED_STATES)
+
+
+def pending(command):
+    return (command.identifier is not None and command.identifier != ''
+            and command.process._state in STOPPED_STATES)
+
+
+def has_target(command):
+    return command.identifier is not None and command.identifier != ''
+
+
+def loads_not_negative(jobs):
+    """shape: expected_load is in 0..100 (range check of the rules parser, C18 load_expected_loading)"""
+    return (forall(jobs.current_jobs, lambda c: c.process.rules.expected_load >= 0)
+            and forall(jobs.planned_jobs, lambda s: forall(jobs.planned_jobs[s], lambda c: c.process.rules.expected_load >= 0)))
+
+
+def targets_identified(jobs):
+    """rely: ProcessStartCommand.update_identifier is the only writer of a command's target and is only called with an
+    instance that get_supvisors_instance returned, i.e. that was RUNNING, hence identified, when chosen; identification is
+    never undone (mapper.identify only adds)"""
+    return (forall(jobs.current_jobs, lambda c: implies(has_target(c), mapper_knows(jobs.supvisors, c.identifier)))
+            and forall(jobs.planned_jobs, lambda s: forall(jobs.planned_jobs[s], lambda c: implies(
+                has_target(c), mapper_knows(jobs.supvisors, c.identifier)))))
+
+
 @contract('commander:ApplicationStartJobs.get_load_requests', props=['C04', 'C14'])
 class GetLoadRequests:
-    """ASSUMED abstraction: {identifier: sum of expected_load of the commands of THIS application job that target it and
-    whose process is still stopped}.  The sums per identifier are not unfolded; per machine they are node_requests(mapper, result, m).
-    Assumed with it: every key is the target of a command of this job - an instance that was RUNNING, hence identified,
-    when chosen (identification is never undone) - and this job is one of the Starter's jobs with loads >= 0, so its
-    pending load per machine is at most the pending load of all jobs (AllPending)."""
-    assumed = True
+    """Call-site facet (VERIFIED; the accounting clauses - domain, lower bounds - are proved on the same code in
+    contracts/c04_loadreq.py, kept apart so that the callers' proofs only carry what they use): the result is a fresh map
+    whose keys are targets of commands of this job, hence - under the callers' rely - identified instances, which is what
+    get_supvisors_instance / get_node_load_request_map require of a request map."""
     raises = ()
+    types = {'load_request_map': 'Dict[str, List[int]]'}
 
     def modifies(self):
         return []
 
     def post_keys_identified(self, result):
-        return forall(result, lambda i: mapper_knows(self.supvisors, i))
-
-    def post_part_of_all_pending(self, result):
-        return forall(str, lambda m: 0 <= node_requests(self.supvisors.mapper, result, m)
-                      and node_requests(self.supvisors.mapper, result, m) <= all_pending(self.supvisors, m))
+        return implies(targets_identified(self), forall(result, lambda i: mapper_knows(self.supvisors, i)))
 
     def post_fresh(self, result):
         return was_fresh(result)
+
+    def loop0_inv(self, k, seq, load_request_map):
+        return (was_fresh(load_request_map)
+                and forall(load_request_map, lambda i: was_fresh(load_request_map[i]) and is_alloc(load_request_map[i])
+                           and load_request_map[i] is not seq)
+                and forall(load_request_map, lambda i: exists(int, lambda j: 0 <= j and j < k and pending_on(seq[j], i))))
+
+    def loop0_modifies(self, load_request_map, seq):
+        return [contents(load_request_map), contents_where(lambda r: was_fresh(r) and r is not seq, 'list')]
 
 
 def node_load_all(supvisors, i):
@@ -183,6 +218,12 @@ class ProcessJob:
         before() only do so for restricted distributions) and ApplicationJobs.next hands every command to process_job
         exactly once (it is popped from planned_jobs first)"""
         return implies(self.distribution == DistributionRules.ALL_INSTANCES, command.identifier is None)
+
+    def pre_targets_identified(self, command):
+        """the rely that was part of the assumed contract of get_load_requests before it was verified: the targets of the
+        commands of this job are identified instances (only read when the placement is done here, i.e. for ALL_INSTANCES
+        applications)"""
+        return implies(self.distribution == DistributionRules.ALL_INSTANCES, targets_identified(self))
 
     def post_only_stopped_processes(self, command, result, old):
         """'a process that is already running ... is not requested again'"""
